@@ -380,11 +380,11 @@ theorem update_spec {s0 : Store} {s : St} (h : Good s0 s) (src dst nm0 : Nat) (u
       · exact fun hh => Or.inr (Or.inr hh)
     cases u with
     | false =>
-      simp only [Bool.false_eq_true, if_false, flushPins, setClean_has, setClean_rec, false_and, false_implies, and_true]
+      simp only [Bool.false_eq_true, if_false, flushPins_has, flushPins_rec, false_and, false_implies, and_true]
       exact ⟨fun w k v => by rw [addPin_has]; simp [modeIdx], fun j => by rw [addPin_rec]⟩
     | true =>
       obtain ⟨a1, a2⟩ := removeRec_views g1 src
-      simp only [if_true, flushPins, setClean_has, setClean_rec, true_and, true_implies]
+      simp only [if_true, flushPins_has, flushPins_rec, true_and, true_implies]
       refine ⟨?_, ?_⟩
       · intro w k v
         rw [a1, hin, addPin_has]; simp [modeIdx]
